@@ -17,7 +17,10 @@ func TestC04(t *testing.T) {
 		Rule:        "real noise Machines over an in-memory duplex with a man in the middle on both directions. For each of the 36 (clientMin<=clientMax, serverMin<=serverMax) version-range combinations x {XX, KK} x auth payload sizes {0,1,4,498,499,500,65535,65536,200000(quick)/3 MiB(thorough)}: (U) the untampered handshake; (V) every substitution of the version byte of each act by 0..3, all 4^3 (XX) / 4^2 (KK) combinations across the acts; (B) single-bit flips of every handshake byte (thorough: all 8 bits of every byte for payloads <= 600 bytes, first/last 64 bytes of each act plus a PRNG sample for larger ones; quick: one PRNG-chosen bit of every byte, for payload sizes 0, 498 and 499). Oracle per trial: NOT(both DoHandshake calls returned nil AND the views differ), where a view = negotiated version, complementary send/recv traffic keys, the peer's true static key, the initiator's received payload equal to the responder's auth payload, and the ConnData callbacks consistent with it (remote key stored iff version >= 2). Control: equal version ranges must complete untampered. Non-trivial = a trial in which at least one side completed; distinct = (pattern, ranges, payload size, tampering).",
 		Assumptions: []string{"which range combinations complete is not judged (except equal ranges)"},
 		NCases: func(tier string) int {
-			return 36 * 2 * 9
+			if tier == "thorough" {
+				return 36*2*9 + 1200
+			}
+			return 36*2*9 + 96
 		},
 		MinEvals: 100,
 		Run:      runC04,
@@ -69,7 +72,128 @@ func prefixNote(got, want []byte) string {
 	return "different"
 }
 
+// runC04Sequence: the views of two parties over the life of their ConnData
+// objects (the application's callbacks installed). (1) a first pairing in which
+// one transport write of one party fails (whole or after a part of the act):
+// a party whose handshake failed must not have published anything - no
+// callback, no stored key, no auth data - because the other party has not
+// completed either and both will try again; (2) the pairing repeated on the
+// same objects without a fault must complete with agreeing views; (3) the
+// responder comes back with another auth payload (longer, shorter, empty) and
+// the paired parties reconnect, twice: the initiator must hold exactly the
+// payload of the latest handshake.
+func runC04Sequence(c *mon.Case) {
+	rng := c.Rng
+	k := c.Idx - 36*2*9
+	sizes := []int{0, 1, 46, 300, 499, 5000, 70000}
+	keyC, keyS := eng.NewKey(rng), eng.NewKey(rng)
+	pass := eng.Entropy(rng)
+	p1 := authMarker(rng, sizes[rng.Intn(len(sizes))])
+	tag := fmt.Sprintf("sequence #%d", k)
+	rep := map[string]any{"config": tag}
+	fail := func(key, desc string) {
+		c.Shard.Violate("sequence|"+key, tag+": "+desc, rep)
+	}
+	// the initiator opens with its minimum version: 2, so that keys are exchanged
+	base := eng.HSConfig{CMin: 2, CMax: 2, SMin: byte(rng.Intn(3)), SMax: 2, PassC: pass, PassS: append([]byte{}, pass...), Auth: p1, KeyC: keyC, KeyS: keyS}
+	// (1) a write fault in the first attempt
+	f := base
+	who, at, part := k%3, 0, rng.Intn(3)
+	werr := func(target int) func(int, []byte) (int, error) {
+		return func(idx int, p []byte) (int, error) {
+			if idx != target {
+				return len(p), nil
+			}
+			switch part {
+			case 0:
+				return 0, fmt.Errorf("write: transport error (injected)")
+			case 1:
+				return len(p) / 2, fmt.Errorf("write: transport error (injected)")
+			}
+			return len(p) - 1, fmt.Errorf("write: transport error (injected)")
+		}
+	}
+	switch who {
+	case 0:
+		f.WriteErrC2S, at = werr(0), 1 // act one
+	case 1:
+		f.WriteErrS2C, at = werr(0), 2 // act two
+	default:
+		f.WriteErrC2S, at = werr(1), 3 // act three
+	}
+	rep["write_fault"] = fmt.Sprintf("act %d, %d", at, part)
+	r1 := eng.RunHandshake(f)
+	if r1.C.NewErr != nil || r1.S.NewErr != nil {
+		c.Shard.Eval("")
+		return
+	}
+	if r1.C.Err == nil && r1.S.Err == nil {
+		fail("completed-despite-write-fault", fmt.Sprintf("both parties completed although the write of act %d failed", at))
+	}
+	if r1.C.Err != nil && (r1.C.RemoteN != 0 || r1.C.AuthCBn != 0 || r1.C.CD.RemoteKey() != nil || r1.C.CD.AuthData() != nil) {
+		fail("failed-party-published|initiator", fmt.Sprintf("the initiator's handshake failed (%v; the write of act %d failed) but it has published the peer's data: remote-key callback ran %d times, auth-data callback %d times, ConnData holds a remote key: %v, auth data: %d bytes", r1.C.Err, at, r1.C.RemoteN, r1.C.AuthCBn, r1.C.CD.RemoteKey() != nil, len(r1.C.CD.AuthData())))
+	}
+	if r1.S.Err != nil && (r1.S.RemoteN != 0 || r1.S.CD.RemoteKey() != nil) {
+		fail("failed-party-published|responder", fmt.Sprintf("the responder's handshake failed (%v) but it has stored the initiator's key", r1.S.Err))
+	}
+	if r1.C.Err == nil || r1.S.Err == nil {
+		// one side completed, the other did not (act three lost after the
+		// initiator was done with it): the recorded pairing-desync situation,
+		// not this slice's subject
+		c.Shard.Count("sequence_one_sided_completions", 1)
+		c.Shard.Eval("")
+		return
+	}
+	// (2) the pairing again, same objects, no fault
+	g := base
+	g.ReuseC, g.ReuseS = r1.C, r1.S
+	r2 := eng.RunHandshake(g)
+	if !r2.OK() {
+		fail("retry-failed", fmt.Sprintf("after a first attempt in which the write of act %d failed, the same two parties cannot pair any more: initiator new=%v hs=%v, responder new=%v hs=%v", at, r2.C.NewErr, r2.C.Err, r2.S.NewErr, r2.S.Err))
+		return
+	}
+	if d := viewDiff(r2, g); d != "" {
+		fail("views-differ|retry", "both parties completed the repeated pairing but "+d)
+	}
+	// (3) reconnects with other auth payloads
+	pc := r2.C
+	prev := len(p1)
+	for round := 0; round < 2; round++ {
+		var n int
+		switch rng.Intn(4) {
+		case 0:
+			n = 0
+		case 1:
+			n = prev / 2
+		case 2:
+			n = prev + 1 + rng.Intn(100)
+		default:
+			n = sizes[rng.Intn(len(sizes))]
+		}
+		pn := authMarker(rng, n)
+		h := eng.HSConfig{KK: true, CMin: 0, CMax: 2, SMin: 0, SMax: 2, PassC: pass, PassS: append([]byte{}, pass...), Auth: pn, KeyC: keyC, KeyS: keyS, ReuseC: pc}
+		r3 := eng.RunHandshake(h)
+		if !r3.OK() {
+			fail("reconnect-failed", fmt.Sprintf("paired parties could not reconnect (round %d): initiator new=%v hs=%v, responder new=%v hs=%v", round, r3.C.NewErr, r3.C.Err, r3.S.NewErr, r3.S.Err))
+			return
+		}
+		if d := viewDiff(r3, h); d != "" {
+			fail("views-differ|reconnect", fmt.Sprintf("reconnect %d (auth payload %d bytes after %d bytes): both completed but %s", round, n, prev, d))
+		}
+		prev = n
+	}
+	c.Shard.Count("sequences", 1)
+	c.Shard.Eval(fmt.Sprintf("seq|act%d|%d|%d", at, part, len(p1)))
+	if k%40 == 0 {
+		c.Shard.Sample(rep)
+	}
+}
+
 func runC04(c *mon.Case) {
+	if c.Idx >= 36*2*9 {
+		runC04Sequence(c)
+		return
+	}
 	rng := c.Rng
 	var ranges [][4]byte
 	for a := byte(0); a <= 2; a++ {
